@@ -1135,7 +1135,9 @@ impl<'a> Gen<'a> {
                     let v = self.lit(&t);
                     self.label("if as a value with equal constant branches");
                     self.declare(&name, t);
-                    let branch = |v: &Expr| Box::new(Stmt::Block(vec![Stmt::Expr(v.clone())]));
+                    // with braces, or (for literals that can stand there) without
+                    let braces = self.tape.bool();
+                    let branch = |v: &Expr| if braces { Box::new(Stmt::Block(vec![Stmt::Expr(v.clone())])) } else { Box::new(Stmt::Expr(v.clone())) };
                     return Stmt::Let(name, Box::new(Stmt::If(c, branch(&v), Some(branch(&v)))));
                 }
                 let a = self.block(depth.saturating_sub(1), 1, Some(&ta));
